@@ -20,13 +20,19 @@
   consultation k; from then on the first accepts nothing, because every acceptance at the root is
   guarded by a fresh consultation of a sticky clock, and the second only appends), packaged
   compositionally and carried through every function of the search by one structural tactic.
-  Not proved (decided by the every-k sweep with order-log replay): the same for the list of sent
-  boards when no improvement was reported (the fallback send), and the absence of index panics beyond
-  ply 99 (L1 in DESIGN.md: not reachable by any real time control, theoretical).
+  `fallback_is_handed_over_first`, `fallback_is_independent_of_the_allowance` (Proofs/Fallback, after
+  fix 3ef6069): the first board on the channel is the head of the root ordering, sent before any
+  evaluation, for every expiry index (also 0) and whatever the outcome; it is the same board for
+  every allowance.  So the board handed back when no evaluation completed is "the first move in its
+  ordering", and boards are only ever appended after it.
+  Not proved (decided by the every-k sweep with order-log replay): that every later board on the
+  channel is paired with exactly one info line (checked per run), and the absence of index panics
+  beyond ply 99 (L1 in DESIGN.md: not reachable by any real time control, theoretical).
 -/
 import Walleye.Proofs.Reports
 import Walleye.Proofs.PrefixSearch
 import Walleye.Proofs.RootRange
+import Walleye.Proofs.Fallback
 namespace Walleye
 open DrawTable
 
@@ -103,5 +109,33 @@ theorem larger_allowance_only_extends (fuel : Nat) (root : P) (table : DrawTable
 
 /-- the two readings of `Later`: a later consultation, or never -/
 example : Later 5 (some 9) ∧ Later 5 none := ⟨by show 5 ≤ 9; omega, trivial⟩
+
+
+/-- the first board on the channel is the head of the root ordering, handed over before any
+    evaluation starts: every game, every clock expiry (also 0), every oracle that keeps a move,
+    whatever the outcome of the run (normal end, expiry, panic, out of fuel) -/
+theorem fallback_is_handed_over_first (hne : OrdNonempty ord) (fuel : Nat) (root : P) (s : SS P O)
+    (hs : s.reports = #[]) (hroot : g.gen root .all ≠ []) :
+    ∃ first tail rest, (ord s.ord s.expired 'R' (g.gen root .all)).1 = first :: tail ∧
+      (outState (getBestMove g ord fuel root s)).reports.toList = Report.sent first :: rest :=
+  getBestMove_hands_over_first g ord hne fuel root s hs hroot
+
+/-- and it is the same board whatever the allowance: two runs from the same fresh state that differ
+    only in the expiry index start their report streams with the same board -/
+theorem fallback_is_independent_of_the_allowance (hne : OrdNonempty ord) (fuel : Nat) (root : P)
+    (table : DrawTable) (o : O) (k k' : Option Nat) (hroot : g.gen root .all ≠ []) :
+    ∃ first rest rest',
+      (outState (getBestMove g ord fuel root (newSS k table o))).reports.toList = Report.sent first :: rest ∧
+      (outState (getBestMove g ord fuel root (newSS k' table o))).reports.toList = Report.sent first :: rest' := by
+  obtain ⟨f1, t1, r1, h1, e1⟩ := getBestMove_hands_over_first g ord hne fuel root (newSS k table o) rfl hroot
+  obtain ⟨f2, t2, r2, h2, e2⟩ := getBestMove_hands_over_first g ord hne fuel root (newSS k' table o) rfl hroot
+  have hx : ∀ x : Option Nat, (newSS (P := P) x table o).expired = false := by
+    intro x; cases x <;> simp [newSS, SS.expired]
+  have ho : ∀ x : Option Nat, (newSS (P := P) x table o).ord = o := fun _ => rfl
+  rw [hx, ho] at h1 h2
+  rw [h1] at h2
+  injection h2 with hf _
+  subst hf
+  exact ⟨f1, r1, r2, e1, e2⟩
 
 end Walleye
